@@ -11,5 +11,6 @@ repo = Repo(root, normalise=False)
 head = subprocess.run(['git', '-C', str(root), 'rev-parse', 'HEAD'], capture_output=True, text=True).stdout.strip()
 inv = normalize.make_inventory(repo.modules)
 out = VERIF / 'sa' / 'baseline_inventory.json'
-out.write_text(json.dumps({'confirmed_tree': head, 'scopes': inv}, indent=0, sort_keys=True) + '\n')
+consts = normalize.constant_names(repo.modules)
+out.write_text(json.dumps({'confirmed_tree': head, 'scopes': inv, 'constants': consts, 'kw_callees': normalize.keyword_callees(repo.modules)}, indent=0, sort_keys=True) + '\n')
 print(out, len(inv), 'scopes', sum(len(v) for v in inv.values()), 'private functions')
